@@ -446,6 +446,8 @@ class Interp:
             ch = au.chain(e)
             if ch and ch[-1] == "pi":
                 return Val("const", ("S", Poly.atom("pi")))
+            if ch and ch[-1] == "vertices":
+                return Val(1, ("L", Val(1, P(ONE)), au.src(e)))
             v = self.ev(e.value)
             if e.attr in ("x", "y", "z", "real", "imag"):
                 a = None
